@@ -660,9 +660,12 @@ def main(argv):
         explanation="Lean theorems about the executable model + differential correspondence of that model with the implementation",
     )
     ev = dict(property_id=prop, tier=tier, seed=seed, level=level, coverage=coverage,
-              assumptions=["soundness of rustc's borrow/region/trait checking", "the global allocator honours layouts",
-                           "f64 arithmetic is exact on the dyadic pacing stream used for correspondence (asserted by construction)",
-                           "object identity = never-reused id (the harness quarantines released Gc blocks)"],
+              assumptions=(["soundness of rustc's borrow/region/trait checking", "the global allocator honours layouts"]
+                           + (["f64 arithmetic is exact on the dyadic pacing stream used for correspondence (asserted by construction)",
+                               "object identity = never-reused id (the harness quarantines released Gc blocks)",
+                               "the snapshot hook (cfg gc_arena_verif) reports the collector's fields faithfully"] if cfg else [])
+                           + (["the translator's classification rules (lib/eng_*.py docstrings, DESIGN 12.6) and the engines' harnesses",
+                               "a probe corpus samples the space of client programs; it does not exhaust it"] if static_res is not None else [])),
               wall_s=round(time.time() - t0, 2), violations=len(violation_lines))
     os.makedirs(os.path.join(ROOT, "evidence"), exist_ok=True)
     with open(os.path.join(ROOT, "evidence", f"{prop}.json"), "w") as f:
